@@ -1,1 +1,21 @@
-From CV Require Import Model.M_reader.
+(** The reader as it was before commit 7a824ff (push-back appended behind the
+    unread buffer tail, [c_front = false]) does not satisfy C05: a concrete
+    witness, kept as a record of the repaired defect. *)
+From Coq Require Import ZArith List Bool.
+From CV Require Import Lib.Sx Lib.ListZ Model.M_reader Proof.P_reader.
+Import ListNotations.
+Open Scope Z_scope.
+
+Theorem c05_pushback_refuted :
+  exists body ops outs s,
+    run (Cfg (Some 11) 0 8192 false) ops (init body []) = (outs, s)
+    /\ all_ok outs
+    /\ ~ (exists rest, delivered outs ++ rest = body).
+Proof.
+  exists [97;98;99;10;100;101;102;10;103;104;105].
+  exists [OReadline None; OReadline (Some 5); ORead None].
+  eexists. eexists. split; [vm_compute; reflexivity|].
+  split; [repeat constructor|].
+  intros [rest H]. vm_compute in H. discriminate.
+Qed.
+Print Assumptions c05_pushback_refuted.
